@@ -56,6 +56,54 @@ class Cfg:
         return b["sp"] if b else None
 
 
+def static_callers(prog):
+    """callee path -> set of caller paths, from the resolved call and function-reference nodes of every body (no interpretation)"""
+    cached = getattr(prog, "_static_callers", None)
+    if cached is not None:
+        return cached
+    res = {}
+
+    def walk(n, caller):
+        if isinstance(n, dict):
+            c = n.get("callee")
+            if isinstance(c, dict):
+                for pth in ((c.get("inst") or {}).get("path"), c.get("path")):
+                    if pth:
+                        res.setdefault(pth, set()).add(caller)
+            r = n.get("r")
+            if isinstance(r, dict) and r.get("res") == "Def" and str(r.get("dk", "")) in ("Fn", "AssocFn"):
+                cc = r.get("callee") or {}
+                for pth in ((cc.get("inst") or {}).get("path"), cc.get("path"), r.get("path")):
+                    if pth:
+                        res.setdefault(pth, set()).add(caller)
+            for v in n.values():
+                walk(v, caller)
+        elif isinstance(n, list):
+            for v in n:
+                walk(v, caller)
+    for path, b in prog.bodies.items():
+        walk(b.get("body"), path)
+    prog._static_callers = res
+    return res
+
+
+def private_helpers_of(prog, roots):
+    """roots plus every non-public function all of whose callers in the crate are already in the set (helpers a routine was split into)"""
+    callers = static_callers(prog)
+    cur = set(r for r in roots if r)
+    changed = True
+    while changed:
+        changed = False
+        for path, b in prog.bodies.items():
+            if path in cur or b.get("dk") not in ("Fn", "AssocFn") or b.get("vis") == "Public" or b.get("impl_trait_def"):
+                continue
+            cs = callers.get(path) or set()
+            if cs and cs <= cur:
+                cur.add(path)
+                changed = True
+    return cur
+
+
 def coords(t):
     """(X, Y, Z, T) of an element-valued term in either backend, or None"""
     if t.op == "struct" and t.args[0].endswith("::Element") and "inner" in t.args[1]:
